@@ -748,7 +748,19 @@ impl PartitionedFileGroup {
             "No files would be left after deduplicating"
         );
         let mut commands = Vec::new();
-        let retained_file = Arc::new(self.to_keep.swap_remove(0));
+        let mut retained_file = self.to_keep.swap_remove(0);
+        if *strategy == DedupeOp::HardLink {
+            // A hard link to a symbolic link is another symbolic link, and a relative one
+            // points elsewhere from its new directory: link to the file it resolves to.
+            let path = retained_file.path.to_path_buf();
+            let is_symlink = path.symlink_metadata().is_ok_and(|m| m.is_symlink());
+            if let (true, Ok(resolved)) = (is_symlink, path.canonicalize()) {
+                if let Ok(resolved) = PathAndMetadata::new(Path::from(resolved)) {
+                    retained_file = resolved;
+                }
+            }
+        }
+        let retained_file = Arc::new(retained_file);
         for dropped_file in self.to_drop {
             match strategy {
                 DedupeOp::SymbolicLink => commands.push(FsCommand::SoftLink {
